@@ -29,6 +29,17 @@ def base_program(rng):
     return isa, src.rstrip('\n').split('\n')
 
 
+def long_runs(n, blank=' '):
+    B = blank * n
+    return [f'.fill 1{B}x', f'.fill 16{B}0', f'.byte 1{B}2', f'K_run = 1{B}2', f'.org 5{B}junk', f'ldi 1{B}2',
+            f'.zero 3{B}q', f'.2byte 1,{B}2 3', f'lbl_run:{B}nop', f'#if 1{B}x\n#endif', f'#if K_none{B}== 1 1\n#endif',
+            f'.zerountil 3{B}q', f'.align 4{B}q', f'.cstr "a"{B}x', f'nop{B}', f'{B}nop', f'.fill{B}1{B},{B}2{B}x',
+            '.byte ' + '(' * n + '1' + ')' * n, '.byte ' + '(' * n + '1', '.byte ' + '-' * n + '1',
+            '.byte ' + '+'.join(['1'] * n), '.byte ' + ','.join(['1'] * n) + ' x', '.2byte ' + 'L' * (n * 5),
+            '.cstr "' + 'a' * (n * 5) + '"', '.cstr "' + 'a' * (n * 5), 'K_run2 = ' + '1' * n + 'x',
+            '.byte ' + 'BYTE0(' * min(n, 200) + '1' + ')' * min(n, 200), '.byte 1' + ' ;' * n, 'l' * n + ':' + B + 'l' * n + ':']
+
+
 def corrupt(rng, lines, kind):
     """-> (new lines, planted must-reject class or None, position tag) or None if not applicable"""
     L = list(lines)
@@ -131,6 +142,30 @@ def corrupt(rng, lines, kind):
         i = rng.choice(code_idx)
         L.insert(i, ''.join(chr(rng.choice([1, 7, 27, 127, 0xA0, 0xFF, 0x2028, 0x1F600, 9, 11, 12])) for _ in range(rng.randrange(1, 12))))
         return L, None, pos_tag(i)
+    if kind == 'odd-spacing':
+        # blanks in unusual places around punctuation (a label's colon, '=', commas, brackets, operators)
+        if rng.random() < 0.5:
+            i = rng.choice(code_idx)
+            out = []
+            for ch in L[i]:
+                if ch in ':,=[]()+-{}"\'' and rng.random() < 0.5:
+                    ch = rng.choice([' ' + ch, ch + ' ', ' ' + ch + ' ', '\t' + ch, '  ' + ch])
+                out.append(ch)
+            L[i] = ''.join(out)
+        else:
+            i = rng.choice(code_idx)
+            L.insert(i, rng.choice(['spaced_lbl : nop', 'spaced_lbl2 :', 'spaced_lbl3\t: ldi 1', '.sp_loc : nop', '_sp_file : .byte 1',
+                                    'K_sp=5', 'K_sp2 =5', 'K_sp3= 5', 'K_sp4  EQU  5', '.byte 1 , 2', '.byte 1 ,2', 'mv2 a ,1', 'mv2 a , 1',
+                                    'ldx [ sp + 1 ]', 'ldx [sp +1]', 'ldx [ sp+1]', 'bra { spaced_t }', 'spaced_t : spaced_u : nop',
+                                    '.org 8 "ZQ"', '.org  8', '. byte 1', '.byte1', '# if 1\n#endif', '#if1\n#endif', 'nop ; c ; d',
+                                    'spaced_v:spaced_w:nop', ': nop', 'nop :', '= 5', 'K_sp5 = = 5', 'lbl_sp6 : = 5']))
+        return L, None, pos_tag(i)
+    if kind == 'long-run':
+        # very long runs of one token / character: matching and parsing must stay (near) linear
+        ins = rng.choice(long_runs(rng.choice([25, 40, 80, 200, 1000]), rng.choice([' ', ' ', '\t', ' \t'])))
+        i = rng.choice(code_idx)
+        L.insert(i, ins)
+        return L, None, pos_tag(i)
     if kind == 'empty-file':
         return [], None, 'whole'
     if kind == 'comments-only':
@@ -142,7 +177,7 @@ def corrupt(rng, lines, kind):
 
 CORRUPTIONS = ['none', 'garble-after-statement', 'drop-token', 'dup-token', 'swap-token', 'truncate-line', 'drop-line', 'dup-line', 'swap-line',
                'garble-mnemonic', 'undefined-label', 'no-variant', 'value-overflow', 'unbalance', 'zero-length', 'junk', 'empty-file',
-               'comments-only']
+               'comments-only', 'long-run', 'odd-spacing']
 
 
 class C14(core.Check):
@@ -164,7 +199,7 @@ class C14(core.Check):
                         'planted:value-does-not-fit-field': 3, 'pos:first': 3, 'pos:middle': 3, 'pos:last': 3,
                         'pos:zero-length@end': 2, 'pos:zero-length@start': 2, 'pos:zero-length@before-org-gap': 2,
                         'pos:zero-length@muted': 2, 'pos:zero-length@end-after-label': 2, 'outcome:success': 3,
-                        'outcome:failure': 3, 'output-in-missing-directory': 3, 'corpus-example': 2, 'window-options': 3}
+                        'outcome:failure': 3, 'output-in-missing-directory': 3, 'long-run:directed': 20, 'odd-spacing:directed': 10, 'corpus-example': 2, 'window-options': 3}
 
     def make(self, isa_files, isa_name, main, src, fmt, planted, tags, missing_dir=False, extra_argv=()):
         files = dict(isa_files)
@@ -208,6 +243,25 @@ class C14(core.Check):
             if i % 4 == 0:
                 yield self.make({fn: itext}, fn, 'p.asm', '\n'.join(lines) + '\n', None, None,
                                 {'output-in-missing-directory', 'fmt:None', 'corruption:none'}, missing_dir=True)
+        # every long-run shape, in front of, inside and after a valid program
+        rng = core.rng_for(0, self.pid, 'runs')
+        isa, lines = base_program(rng)
+        fn, itext = isamod.render_isa(isa, 'json')
+        for n_ in ([40, 300] if tier == 'quick' else [25, 40, 80, 300, 1000, 3000]):
+            for blank in (' ', '\t'):
+                for k, ins in enumerate(long_runs(n_, blank)):
+                    at = [0, len(lines) // 2, len(lines)][k % 3]
+                    L = lines[:at] + [ins] + lines[at:]
+                    yield self.make({fn: itext}, fn, 'p.asm', '\n'.join(L) + '\n', None, None,
+                                    {'corruption:long-run', 'fmt:None', 'long-run:directed', 'pos:' + ['first', 'middle', 'last'][k % 3]})
+        odd = ['spaced_lbl : nop', 'spaced_lbl2 :', 'spaced_lbl3\t: ldi 1', '.sp_loc : nop', '_sp_file : .byte 1', 'K_sp=5', 'K_sp2 =5',
+               'K_sp4  EQU  5', '.byte 1 , 2', 'mv2 a ,1', 'ldx [ sp + 1 ]', 'bra { spaced_t }', 'spaced_t : spaced_u : nop',
+               'spaced_v:spaced_w:nop', ': nop', 'nop :', '= 5', 'K_sp5 = = 5', 'lbl_sp6 : = 5', '. byte 1', '# if 1\n#endif']
+        for k, ins in enumerate(odd):
+            at = [0, len(lines) // 2, len(lines)][k % 3]
+            L = lines[:at] + [ins] + lines[at:]
+            yield self.make({fn: itext}, fn, 'p.asm', '\n'.join(L) + '\n', None, None,
+                            {'corruption:odd-spacing', 'fmt:None', 'odd-spacing:directed', 'pos:' + ['first', 'middle', 'last'][k % 3]})
         # corruptions of the repository's example programs (line-level, no AST needed)
         from vf import runner
         import sys
@@ -254,7 +308,8 @@ class C14(core.Check):
         if o.get('timed_out') in ('steps', 'cpu'):
             det['steps'] = (o.get('probes') or {}).get('steps')
             pos = next((t for t in tags if t.startswith('pos:')), '')
-            return [core.violated(f'does-not-terminate-within-bound/{o["timed_out"]}/{pos}', det, buckets=tags)]
+            det['bound'] = o['timed_out']        # logical steps in the forked run; CPU seconds in the fresh-interpreter run
+            return [core.violated(f'does-not-terminate-within-bound/{pos}', det, buckets=tags)]
         files = o.get('files') or {}
         out = m['out']
         ok = o.get('exit') == 0
